@@ -13,7 +13,7 @@ def add(pid, level, engine, technique, text, note, design):
 
 REASM_NOTE = ("Trusted: Go toolchain; the instrumenter's rewrite table (sync->vsync, atomic->vatomic, time.Now->virtual clock) and shim fidelity; "
               "BFS state key ignores bytes beyond len of slices and message fields other than RecordType/Sequence (the all-sequences pass does not); "
-              "driver bound of 2-3 records per buffered event in the BFS (scale scenarios drive one quantity to 20000/40000); loss counting only inside one 2^24 window (ordering also for numbers 2^31 apart); virtual clock instead of real time.")
+              "driver bound of 2-3 records per buffered event in the BFS (scale scenarios drive one quantity to 20000/40000 and 66000); loss counting only inside one 2^24 window (ordering also for numbers 2^31 apart); virtual clock instead of real time.")
 for pid, what in [
     ("C01", "every pushed non-EOE record is delivered exactly once, grouped by sequence in push order, never split (monitor M01: each callback must equal the shadow's undelivered list for that sequence element for element; empty shadow after Close)"),
     ("C02", "ascending delivery with the late-arrival exception (monitor M02: an event pending while a higher sequence is delivered is 'overtaken' and must not be delivered later)"),
@@ -94,13 +94,37 @@ add("C20", EX, "enum-tables",
     "All 65536 codes String->GetAuditMessageType and text marshalling; every errno row (alias-safe, numbers vs asm-generic); every arch name/code through Build and ToCommandLine (codes vs linux/audit.h); every name of every per-arch syscall table (duplicates; Build by name sets exactly the table's bit); every rule field x operator and every inter-field pair through Build -> code (= linux/audit.h) -> ToCommandLine -> same name; every record_types / syscalls / has_fields entry of the tree's normalizations.yaml (resolvable, deterministic across loads and across qualifier-field subsets); GetAuditEventType over all types twice and in four visiting orders in fresh processes; nine entry points each as the FIRST library call of a fresh process (digest equals that of a process that has done everything); MarshalText after the caller overwrote the bytes it was given; every errno spelling through -F exit=-NAME; every architecture name x syscall numbers 0..600 listed and rebuilt; every table name also behind a negated arch filter.",
     "Trusted: refdata transcriptions; the tree's normalizations.yaml is read from the repository and compared with the embedded copy through three spot events.", "DESIGN.md §5 C20")
 
+# round 7 (DESIGN.md §12.6): what was added per property, appended to the level text
+R7 = {
+ "C01": "Round 7: a Stream that owns the slice it is handed (fills spare capacity, clears elements); sequences congruent modulo k*(maxInFlight+d) and powers of two; a panic inside an API call is a violation; type-width scale scenarios (2^8, 2^16 buffered events).",
+ "C02": "Round 7: buffers of 2^8+500 and 2^16+500 events (fill, middle insert, one-Maintain flush) with logarithmic shadow bookkeeping; raw headers whose sequence numbers are decimal prefixes of one another.",
+ "C03": "Round 7: aged objects (2^16-20 delivered events with gaps) and type-width scale scenarios also under the loss monitor.",
+ "C10": "Round 7: records with the text a kernel writes (SYSCALL items=2, PATH, EXECVE argc=3, PROCTITLE) through both entry points; decimal-prefix headers.",
+ "C19": "Round 7: aged objects (2^8-20, 2^16-20 delivered events, then a chain of 40 incomplete events 3 ticks apart with Maintain after each); whole schedule trees of a pushing and a closing goroutine (what Close itself delivers is ascending, nothing twice, loss accounting).",
+ "C11": "Round 7: the driver programs free-running on a GOARCH=386 build (crash = violation); counter acceleration (integer fields that move under Close/Maintain on a closed object set next to the limits of their type).",
+ "C08": "Round 7: process-identity seam (uid/euid/pid/environment), receive latency and rotating receive buffers in the simulated kernel, socket-stack pass over descriptor numbers and port ids.",
+ "C16": "Round 7: setters under other process identities; socket-stack pass.",
+ "C17": "Round 7: ops 'time passes' and 'effective uid changes'; socket-stack pass.",
+ "C18": "Round 7: descriptors 0..65535, caller buffers at every alignment.",
+ "C04": "Round 7: 40 complete multi-byte control sequences (CSI/OSC/C1, overstrike, mark-up, escapes) in bodies; the exported Timestamp re-zoned to 21 zones before ToMapStr.",
+ "C05": "Round 7: every token / harvested literal in front of the parenthesised header; messages snapshot, handed to aucoalesce.CoalesceMessages (+ResolveIDs, twice, reversed) and compared again (2200 groups).",
+ "C12": "Round 7: every (arch, nr) x a0..a3 over 0..0x28 and pointer-like values; values after the message was handed to the coalescer equal those of an untouched copy.",
+ "C06": "Round 7: 'all' at every position of syscall lists (genuine defect found and fixed: 22b0837); watches with no free file descriptor; file-system histories (a name changes kind while the process lives); string/numeric/key filter interleavings.",
+ "C07": "Round 7: file-system histories; 64 literal-looking words as keys, values and watch paths; big rules up to 256 KiB.",
+ "C13": "Round 7: the whole C06 rule-spec domain under the totality oracle; big rules (64 strings x 4096 bytes) decoded under guard-page placements.",
+ "C14": "Round 7: references to every environment variable of the process in 19 notations, ~, format verbs; all list x action pairs for -a/-A alone and as ordered pairs.",
+ "C09": "Round 7: every known record type first/second with res= in six spellings against succeeded/failed SYSCALLs; pairs of record types sharing a key; pieced EXECVE arguments.",
+ "C15": "Round 7: cold-cache concurrent harness (caches per execution, scheduling point inside the account database, channel operations of the code under test modelled by vshim/vchan); six repetitions in the recoalesce oracle; the C09 round-7 groups.",
+ "C20": "Round 7: the errno table through its consumers (SYSCALL/SECCOMP exit=-N, ToCommandLine -F exit=-N) for N=1..4200.",
+}
+
 def emit():
     out = {
         "version": 1,
         "setup_cmd": "./setup.sh",
         "hooks": {
             "guard": "verif",
-            "enable": "no in-repo hooks: check-time AST rewrite of the current working tree (engine/instr) + `go build -overlay` that swaps sync/atomic/time/socket/os-user-lookup calls for scheduler, clock, socket and account-database seams and maps virtual shim packages under <repo>/vshim (DESIGN.md §3.1, §4); the tag `verif` is reserved and passed to no file in the repository",
+            "enable": "no in-repo hooks: check-time AST rewrite of the current working tree (engine/instr) + `go build -overlay` that swaps sync/atomic/channel/time/socket/os-user-lookup/os-identity calls for scheduler, clock, socket, account-database and process-identity seams and maps virtual shim packages under <repo>/vshim (DESIGN.md §3.1, §4); the tag `verif` is reserved and passed to no file in the repository",
             "baseline_off_cmd": "cd /repo && GOFLAGS=-mod=mod go test -vet=off -count=1 -timeout 25m ./...",
             "source_commits": [],
             "add_only": True,
@@ -110,7 +134,8 @@ def emit():
             {"name": "guard", "path": "engine/guard", "serves_properties": ["C08", "C16", "C17"], "kind_free_text": "buffers flush against PROT_NONE pages + SetPanicOnFault: an access outside the buffer faults"},
             {"name": "collide", "path": "engine/collide", "serves_properties": ["C04"], "kind_free_text": "deterministic birthday search for equal-length texts that collide under common 32-bit hashes / weak keys"},
             {"name": "harvest", "path": "engine/harvest", "serves_properties": ["C01", "C02", "C03", "C04", "C05", "C10", "C11", "C12", "C17", "C19"], "kind_free_text": "reads string literals, folded integer constants and AUDIT_ identifiers from the tree under test at check time; generators turn them into tokens, record types and scale scenarios"},
-            {"name": "sched", "path": "engine/vshim/sched", "serves_properties": ["C11", "C15", "C17", "C18"], "kind_free_text": "controlled cooperative scheduler + stateless DFS over schedules with iterative preemption bounding"},
+            {"name": "sched", "path": "engine/vshim/sched", "serves_properties": ["C01", "C08", "C11", "C15", "C17", "C18", "C19"], "kind_free_text": "controlled cooperative scheduler + stateless DFS over schedules with iterative preemption bounding; channel operations of the code under test are scheduling points (engine/vshim/vchan); stuck-thread watchdog"},
+            {"name": "seams", "path": "engine/vshim", "serves_properties": ["C06", "C07", "C08", "C14", "C15", "C16", "C17", "C18"], "kind_free_text": "seams the instrumenter routes to: virtual clock (vtime), socket layer (vsys), account database (vuser), process identity and environment (vos)"},
             {"name": "sched-conc", "path": "checks/conc", "serves_properties": ["C11"], "kind_free_text": "schedule exploration of Reassembler driver programs + free-running race pass"},
             {"name": "envdfs-client", "path": "checks/client", "serves_properties": ["C08", "C17"], "kind_free_text": "deviation-bounded environment DFS over a simulated kernel (engine/ksim, engine/envdfs)"},
             {"name": "enum-client", "path": "checks/client", "serves_properties": ["C16"], "kind_free_text": "exhaustive enumeration of setter arguments / reply buffers"},
@@ -136,7 +161,7 @@ def emit():
                 "evidence_file": f"/verif/evidence/{pid}.json",
                 "replay_cmd_template": f"./vcheck {pid} --replay {{path}}",
                 "engine": c["engine"],
-                "level_claimed": {"category": c["level"], "text": c["text"], "design_ref": c["design"]},
+                "level_claimed": {"category": c["level"], "text": c["text"] + " " + R7.get(pid, ""), "design_ref": c["design"] + ", §12.6"},
                 "level_note": c["note"],
                 "technique": c["technique"],
             })
